@@ -626,6 +626,20 @@ func (x *Exec) applyContract(fr *Frame, st *State, cc *ssa.CallCommon, callee *s
 			}
 		}
 	}
+	// assume-return: facts about the result that are assumed, not proved
+	// (type invariants of values that enter from outside); recorded as assumptions
+	for _, c := range ctr.AssumeRet {
+		var errs []string
+		probe := post.child()
+		probe.st = st.clone()
+		probe.errs = &errs
+		x.evalBool(probe, c.Expr)
+		if len(errs) > 0 {
+			continue
+		}
+		st.assume(x.evalBool(post, c.Expr))
+		x.funcsUsed["assume:result of "+key+": "+c.Src+" (assume-return: not proved)"] = true
+	}
 	if ctr.LogCalls {
 		st.calls = append(st.calls, &CallEvent{Kind: "static", Static: callee, Args: args, Results: rs, Desc: key, Snap: callSnap})
 	}
@@ -941,12 +955,22 @@ func (x *Exec) appendBuiltin(st *State, cc *ssa.CallCommon, args []Val) Val {
 			arr = Store(arr, Add(oldLen, IntLit(int64(i))), elemAt(IntLit(int64(i))))
 		}
 		newLen = Add(oldLen, IntLit(int64(k)))
+		if x.ctr != nil && x.ctr.AppendFrames && k > 0 {
+			// witness transfer for existentially quantified facts about the old
+			// slice: every index read of the old array is also read of the new one
+			st.assume(Term{fmt.Sprintf("(forall ((i Int)) (! (=> (and (<= 0 i) (< i %s)) (= (select %s i) (select %s i))) :pattern ((select %s i))))", oldLen.S, arr.S, sliceArr(s.T).S, sliceArr(s.T).S), "Bool"})
+		}
 	} else {
 		arr = x.d.Fresh("app", sliceArrSort[sort])
 		old := sliceArr(s.T)
 		st.assume(Term{fmt.Sprintf("(forall ((i Int)) (! (=> (and (<= 0 i) (< i %s)) (= (select %s i) (select %s i))) :pattern ((select %s i))))", oldLen.S, arr.S, old.S, arr.S), "Bool"})
 		j := Term{"j", "Int"}
 		st.assume(Term{fmt.Sprintf("(forall ((j Int)) (! (=> (and (<= 0 j) (< j %s)) (= (select %s (+ %s j)) %s)) :pattern (%s)))", n.S, arr.S, oldLen.S, elemAt(j).S, elemAt(j).S), "Bool"})
+		if x.ctr != nil && x.ctr.AppendFrames {
+			st.assume(Term{fmt.Sprintf("(forall ((i Int)) (! (=> (and (<= 0 i) (< i %s)) (= (select %s i) (select %s i))) :pattern ((select %s i))))", oldLen.S, arr.S, old.S, old.S), "Bool"})
+			// reads of the new array beyond the old length are reads of the appended slice
+			st.assume(Term{fmt.Sprintf("(forall ((k Int)) (! (=> (and (<= %s k) (< k %s)) (= (select %s k) %s)) :pattern ((select %s k))))", oldLen.S, newLen.S, arr.S, elemAt(Term{"(- k " + oldLen.S + ")", "Int"}).S, arr.S), "Bool"})
+		}
 	}
 	// []byte contents seen as a string: appending concatenates
 	if sl, ok := T.Underlying().(*types.Slice); ok && isByteType(sl.Elem()) && x.te.StrSort == "String" && !x.te.ByteBV {
